@@ -16,9 +16,22 @@ sys.path.insert(0, os.environ["XV_REPO"])
 from pathlib import Path
 from peg_parser.parser import XonshParser
 from peg_parser.tokenize import TokenError
+import signal as _signal
+class _Hang(BaseException):
+    pass
+def _on_alarm(signum, frame):
+    raise _Hang()
+_signal.signal(_signal.SIGALRM, _on_alarm)
+_hangs = [0]
 def outcome(fn):
+    if _hangs[0] >= 8:
+        return {"k": "not-run"}  # the parser hangs on input after input: stop burning the budget
+    _signal.alarm(8)
     try:
         t = fn()
+    except _Hang:
+        _hangs[0] += 1
+        return {"k": "hang"}
     except SyntaxError as e:
         return {"k": "err", "cls": type(e).__name__, "msg": e.msg, "lineno": e.lineno, "offset": e.offset, "end_lineno": e.end_lineno, "end_offset": e.end_offset, "text": e.text}
     except TokenError as e:
@@ -27,6 +40,8 @@ def outcome(fn):
         return {"k": "exc", "cls": "RecursionError"}
     except BaseException as e:
         return {"k": "exc", "cls": type(e).__name__, "msg": str(e)[:120]}
+    finally:
+        _signal.alarm(0)
     return {"k": "tree", "dump": ast.dump(t, include_attributes=True) if t is not None else None}
 d = Path(sys.argv[1])
 res = []
@@ -134,7 +149,14 @@ def run_children(files, envs):
             e["XV_REPO"] = str(REPO)
             procs.append((name, subprocess.Popen([PY, str(child), str(tmp)], env=e, stdout=subprocess.PIPE, stderr=subprocess.PIPE)))
         for name, p in procs:
-            out, err = p.communicate(timeout=1200)
+            try:
+                out, err = p.communicate(timeout=int(os.environ.get("XV_CHILD_TIMEOUT_S", "600")))
+            except subprocess.TimeoutExpired:
+                # the child is stuck where the per-parse alarm cannot reach (inside a C call): every file counts as a hang
+                p.kill()
+                p.communicate()
+                results[name] = [[f.name, {"k": "hang"}, {"k": "hang"}] for f in sorted(tmp.glob("*.src"))]
+                continue
             if p.returncode != 0:
                 raise RuntimeError(f"child under {name} failed: {err.decode(errors='replace')[-400:]}")
             results[name] = json.loads(out)
